@@ -6,9 +6,11 @@ import (
 	stdflate "compress/flate"
 	stdzlib "compress/zlib"
 	"errors"
+	"fmt"
 	"io"
 	"math/rand"
 	"os"
+	"runtime/debug"
 	"testing"
 	"time"
 
@@ -776,6 +778,414 @@ func TestT14cFlushPrefixSweep(t *testing.T) {
 			if bad > 0 {
 				t.Errorf("level %d size %d: %d splits fail", lvl, sz, bad)
 			}
+		}
+	}
+}
+
+// 15: mutation sweep against the reference inflater (C03): no panic; io.EOF only where the reference
+// accepts, with the same bytes; bytes handed out before an error are a prefix of what the reference
+// produces (the reference may stop a little earlier or later; only positions both produced are compared);
+// the error is sticky.
+func TestT15MutationSweep(t *testing.T) {
+	seed, iters := int64(99), 6000
+	if v := os.Getenv("T15_SEED"); v != "" {
+		fmt.Sscan(v, &seed)
+	}
+	if v := os.Getenv("T15_ITERS"); v != "" {
+		fmt.Sscan(v, &iters)
+	}
+	rng := rand.New(rand.NewSource(seed))
+	var streams [][]byte
+	mk := func(sz int, kind int, s int64) []byte {
+		switch kind {
+		case 0:
+			return randText(sz, s)
+		case 1:
+			b := make([]byte, sz)
+			rand.New(rand.NewSource(s)).Read(b)
+			return b
+		default:
+			b := make([]byte, sz)
+			for i := range b {
+				b[i] = "ab"[(i/7)%2]
+			}
+			return b
+		}
+	}
+	for _, lvl := range []int{1, 6, 9, -2, 0} {
+		for _, sz := range []int{40, 700, 9000, 70000} {
+			for kind := 0; kind < 3; kind++ {
+				p := mk(sz, kind, int64(sz+lvl))
+				var b bytes.Buffer
+				w, _ := stdflate.NewWriter(&b, lvl)
+				w.Write(p[:sz/2])
+				if sz > 500 {
+					w.Flush()
+				}
+				w.Write(p[sz/2:])
+				w.Close()
+				streams = append(streams, b.Bytes())
+				if lvl == 1 || lvl == -2 {
+					var fb bytes.Buffer
+					fw, _ := flate.NewWriter(&fb, lvl)
+					fw.Write(p[:sz/2])
+					fw.Write(p[sz/2:])
+					fw.Close()
+					streams = append(streams, fb.Bytes())
+				}
+			}
+		}
+	}
+	readAll := func(r io.Reader) (out []byte, err error, second error) {
+		defer func() {
+			if x := recover(); x != nil {
+				err = errors.New("PANIC")
+				if os.Getenv("T15_TRACE") != "" {
+					fmt.Printf("panic: %v\n%s\n", x, debug.Stack())
+				}
+			}
+		}()
+		buf := make([]byte, 1000)
+		for err == nil {
+			var n int
+			n, err = r.Read(buf)
+			out = append(out, buf[:n]...)
+		}
+		n2, e2 := r.Read(buf)
+		if n2 != 0 {
+			e2 = errors.New("data after error")
+		}
+		return out, err, e2
+	}
+	fails := 0
+	for it := 0; it < iters && fails < 8; it++ {
+		s := append([]byte(nil), streams[rng.Intn(len(streams))]...)
+		switch rng.Intn(4) {
+		case 0:
+			s[rng.Intn(len(s))] ^= 1 << uint(rng.Intn(8))
+		case 1:
+			s = s[:rng.Intn(len(s))]
+		case 2:
+			i := rng.Intn(len(s))
+			s[i] = byte(rng.Intn(256))
+			if i+1 < len(s) {
+				s[i+1] = byte(rng.Intn(256))
+			}
+		case 3:
+			i := rng.Intn(len(s))
+			s = append(s[:i], s[i+1:]...)
+		}
+		want, werr, _ := readAll(stdflate.NewReader(bytes.NewReader(s)))
+		got, gerr, again := readAll(flate.NewReader(bufio.NewReader(bytes.NewReader(s))))
+		n := len(got)
+		if len(want) < n {
+			n = len(want)
+		}
+		switch {
+		case gerr != nil && gerr.Error() == "PANIC":
+			fails++
+			t.Errorf("it %d: panic", it)
+		case !bytes.Equal(got[:n], want[:n]):
+			fails++
+			t.Errorf("it %d: bytes differ from the reference within the common prefix (%d/%d) errs %v / %v", it, len(got), len(want), gerr, werr)
+		case gerr == io.EOF && (werr != io.EOF || len(got) != len(want)):
+			fails++
+			t.Errorf("it %d: accepted (%d bytes) where the reference says %v (%d bytes)", it, len(got), werr, len(want))
+		case werr == io.EOF && gerr != io.EOF:
+			fails++
+			t.Errorf("it %d: rejected a stream the reference accepts: %v", it, gerr)
+		case again != gerr:
+			fails++
+			t.Errorf("it %d: error not sticky: %v then %v", it, gerr, again)
+		case gerr != io.EOF && gerr != io.ErrUnexpectedEOF:
+			if _, ok := gerr.(flate.CorruptInputError); !ok {
+				fails++
+				t.Errorf("it %d: error type %T %v", it, gerr, gerr)
+			}
+		}
+	}
+}
+
+// 16: C03 an incomplete Huffman code in a dynamic header is accepted (found by TestT15MutationSweep:
+// one flipped HDIST bit; compress/flate says corrupt, fastgo returned 39 bytes and io.EOF).
+func TestT16IncompleteCode(t *testing.T) {
+	base := []byte{0x04, 0xc0, 0x01, 0x01, 0x00, 0x30, 0x10, 0x41, 0xd1, 0xac, 0xf8, 0x73, 0xfa, 0x27, 0xd8, 0x83, 0x63, 0x8d, 0x67, 0xa4, 0x23, 0xf1, 0x22, 0x37, 0xf3, 0x53, 0xa6, 0x2b, 0xbc, 0x55, 0xfc, 0x00, 0x00, 0x00, 0xff, 0xff}
+	if _, err := stdInflate(base); err != nil {
+		t.Fatalf("base stream: %v", err)
+	}
+	bad := append([]byte(nil), base...)
+	bad[1] ^= 1 // HDIST 0 -> 1: one more distance length is read, both codes become incomplete
+	_, werr := stdInflate(bad)
+	got, gerr := io.ReadAll(flate.NewReader(bytes.NewReader(bad)))
+	if werr == nil {
+		t.Fatalf("reference accepts the damaged stream")
+	}
+	if gerr == nil {
+		t.Errorf("accepted %d bytes and io.EOF where compress/flate says %v", len(got), werr)
+	}
+}
+
+// 17: C03 a symbol-16 repeat crossing from the literal/length lengths into the distance lengths may
+// run past the declared count: index-out-of-range panic (reproducer by the round-4 C03 seeding agent,
+// found independently by TestT15MutationSweep).
+func TestT17RepeatAcrossBoundary(t *testing.T) {
+	var out []byte
+	var acc uint64
+	var nacc uint
+	put := func(v uint32, n uint) {
+		acc |= uint64(v) << nacc
+		nacc += n
+		for nacc >= 8 {
+			out = append(out, byte(acc))
+			acc >>= 8
+			nacc -= 8
+		}
+	}
+	put(1, 1)  // BFINAL
+	put(2, 2)  // dynamic
+	put(0, 5)  // HLIT  -> 257 lit/len codes
+	put(0, 5)  // HDIST -> 1 distance code
+	put(15, 4) // HCLEN -> 19
+	// code length code: symbols 8 and 16, one bit each (8 -> 0, 16 -> 1)
+	order := []int{16, 17, 18, 0, 8, 7, 9, 6, 10, 5, 11, 4, 12, 3, 13, 2, 14, 1, 15}
+	for _, s := range order {
+		if s == 8 || s == 16 {
+			put(1, 3)
+		} else {
+			put(0, 3)
+		}
+	}
+	for i := 0; i < 256; i++ {
+		put(0, 1) // length 8 for literals 0..255
+	}
+	put(1, 1) // symbol 16 ...
+	put(3, 2) // ... repeat 6 times: 256, distance 0, and four entries that do not exist
+	for i := 0; i < 40; i++ {
+		put(0, 8)
+	}
+	defer func() {
+		if p := recover(); p != nil {
+			t.Fatalf("panic: %v", p)
+		}
+	}()
+	_, err := io.ReadAll(flate.NewReader(bytes.NewReader(out)))
+	if _, ok := err.(flate.CorruptInputError); !ok {
+		t.Fatalf("err = %v, want CorruptInputError", err)
+	}
+}
+
+// 18: C04 sweep - for valid and truncated streams the bytes and the final error must not depend on how the
+// source delivers the data: all-at-once vs one byte at a time vs random chunks vs small bufio.
+type fixedChunks struct {
+	data        []byte
+	size        func() int
+	eofWithData bool
+}
+
+func (c *fixedChunks) Read(p []byte) (int, error) {
+	if len(c.data) == 0 {
+		return 0, io.EOF
+	}
+	n := c.size()
+	if n > len(p) {
+		n = len(p)
+	}
+	if n > len(c.data) {
+		n = len(c.data)
+	}
+	copy(p, c.data[:n])
+	c.data = c.data[n:]
+	if len(c.data) == 0 && c.eofWithData {
+		return n, io.EOF
+	}
+	return n, nil
+}
+
+func TestT18DeliveryIndependence(t *testing.T) {
+	seed, iters := int64(5), 400
+	if v := os.Getenv("T18_SEED"); v != "" {
+		fmt.Sscan(v, &seed)
+	}
+	if v := os.Getenv("T18_ITERS"); v != "" {
+		fmt.Sscan(v, &iters)
+	}
+	r := rand.New(rand.NewSource(seed))
+	run := func(src io.Reader, bufsz int) ([]byte, error) {
+		fr := flate.NewReader(src)
+		var got []byte
+		var err error
+		p := make([]byte, bufsz)
+		for err == nil {
+			var k int
+			k, err = fr.Read(p)
+			got = append(got, p[:k]...)
+		}
+		return got, err
+	}
+	fails := 0
+	for iter := 0; iter < iters && fails < 6; iter++ {
+		n := 1 + r.Intn(100000)
+		data := randText(n, int64(iter)+seed*1000)
+		if iter%3 == 0 {
+			r.Read(data[:n/2])
+		}
+		var b bytes.Buffer
+		w, _ := stdflate.NewWriter(&b, []int{0, 1, 6, 9, -2}[iter%5])
+		w.Write(data[:n/2])
+		if iter%2 == 0 {
+			w.Flush()
+		}
+		w.Write(data[n/2:])
+		w.Close()
+		stream := b.Bytes()
+		cut := len(stream)
+		if iter%4 != 0 {
+			cut = r.Intn(len(stream))
+		}
+		s := stream[:cut]
+		ref, referr := run(bufio.NewReaderSize(bytes.NewReader(s), 1<<20), 1<<16)
+		variants := []struct {
+			name string
+			src  io.Reader
+			buf  int
+		}{
+			{"one byte", &fixedChunks{data: s, size: func() int { return 1 }}, 1 << 16},
+			{"random chunks", &fixedChunks{data: s, size: func() int { return 1 + r.Intn(700) }}, 1 + r.Intn(5000)},
+			{"eof with data", &fixedChunks{data: s, size: func() int { return 1 + r.Intn(9000) }, eofWithData: true}, 4096},
+			{"bufio16", bufio.NewReaderSize(&fixedChunks{data: s, size: func() int { return 1 + r.Intn(40) }}, 16), 333},
+			{"small reads", bufio.NewReaderSize(bytes.NewReader(s), 4096), 1},
+		}
+		for _, v := range variants {
+			got, err := run(v.src, v.buf)
+			if !bytes.Equal(got, ref) || err != referr {
+				fails++
+				t.Errorf("iter %d (cut %d of %d) %s: %d bytes err %v; all-at-once: %d bytes err %v", iter, cut, len(stream), v.name, len(got), err, len(ref), referr)
+			}
+		}
+	}
+}
+
+// 19: C14 at the delegated levels (0, 3..9) a failure first seen by Close is not sticky: the next Write
+// returns nil (compress/flate's own behaviour - its close does not latch the bit writer's error).
+type failFrom struct {
+	n, k int
+}
+
+func (f *failFrom) Write(p []byte) (int, error) {
+	f.n++
+	if f.n >= f.k {
+		return 0, errSourceGone
+	}
+	return len(p), nil
+}
+
+func TestT19DelegatedLevelsStickyError(t *testing.T) {
+	for _, lvl := range []int{0, 3, 6, 9} {
+		w, err := flate.NewWriter(&failFrom{k: 1}, lvl)
+		if err != nil {
+			t.Fatal(err)
+		}
+		w.Write([]byte("hello"))
+		if err := w.Close(); err == nil {
+			t.Fatalf("level %d: Close on a failing destination returned nil", lvl)
+		}
+		if _, err := w.Write([]byte("more")); err == nil {
+			t.Errorf("level %d: Write after a failed Close returned nil", lvl)
+		}
+		if err := w.Flush(); err == nil {
+			t.Errorf("level %d: Flush after a failed Close returned nil", lvl)
+		}
+	}
+}
+
+// 20: C16 - every call sequence up to length 5 over {Write(nil), Write(small), Flush, Close, Reset} on a healthy
+// destination: each call fails exactly when the standard library's does; a Close after a successful
+// Close emits nothing (zlib re-emitted its trailer before the fix, as compress/zlib itself does).
+func TestT20SequenceParity(t *testing.T) {
+	type wr interface {
+		Write([]byte) (int, error)
+		Flush() error
+		Close() error
+	}
+	type pair struct {
+		name  string
+		mk    func(*bytes.Buffer, int) (wr, func(*bytes.Buffer))
+		mkStd func(*bytes.Buffer, int) (wr, func(*bytes.Buffer))
+	}
+	pairs := []pair{
+		{"zlib",
+			func(b *bytes.Buffer, l int) (wr, func(*bytes.Buffer)) {
+				w, _ := zlib.NewWriterLevel(b, l)
+				return w, func(nb *bytes.Buffer) { w.Reset(nb) }
+			},
+			func(b *bytes.Buffer, l int) (wr, func(*bytes.Buffer)) {
+				w, _ := stdzlib.NewWriterLevel(b, l)
+				return w, func(nb *bytes.Buffer) { w.Reset(nb) }
+			}},
+		{"flate",
+			func(b *bytes.Buffer, l int) (wr, func(*bytes.Buffer)) {
+				w, _ := flate.NewWriter(b, l)
+				return w, func(nb *bytes.Buffer) { w.Reset(nb) }
+			},
+			func(b *bytes.Buffer, l int) (wr, func(*bytes.Buffer)) {
+				w, _ := stdflate.NewWriter(b, l)
+				return w, func(nb *bytes.Buffer) { w.Reset(nb) }
+			}},
+	}
+	ops := []string{"W0", "Ws", "F", "C", "R"}
+	for _, pr := range pairs {
+		for _, lvl := range []int{1, 6, -2, 0} {
+			var seq []int
+			var rec func(depth int)
+			bad := 0
+			rec = func(depth int) {
+				if depth == 5 {
+					var ba, bb bytes.Buffer
+					a, ra := pr.mk(&ba, lvl)
+					b, rb := pr.mkStd(&bb, lvl)
+					closedOK := false
+					for i, o := range seq {
+						var ea, eb error
+						before := ba.Len()
+						switch ops[o] {
+						case "W0":
+							_, ea = a.Write(nil)
+							_, eb = b.Write(nil)
+						case "Ws":
+							_, ea = a.Write([]byte("hello, hello, hello"))
+							_, eb = b.Write([]byte("hello, hello, hello"))
+						case "F":
+							ea, eb = a.Flush(), b.Flush()
+						case "C":
+							ea, eb = a.Close(), b.Close()
+							if closedOK && ea == nil && ba.Len() != before && bad < 5 {
+								bad++
+								t.Errorf("%s level %d %v: Close #%d after a successful Close emitted %d bytes", pr.name, lvl, seq, i, ba.Len()-before)
+							}
+							if ea == nil {
+								closedOK = true
+							}
+						case "R":
+							ba.Reset()
+							bb.Reset()
+							ra(&ba)
+							rb(&bb)
+							closedOK = false
+						}
+						if (ea == nil) != (eb == nil) && bad < 5 {
+							bad++
+							t.Errorf("%s level %d %v: call %d (%s): fastgo %v, std %v", pr.name, lvl, seq, i, ops[o], ea, eb)
+						}
+					}
+					return
+				}
+				for o := range ops {
+					seq = append(seq, o)
+					rec(depth + 1)
+					seq = seq[:len(seq)-1]
+				}
+			}
+			rec(0)
 		}
 	}
 }
